@@ -67,8 +67,22 @@ def gen_input(rng):
             return pytz.timezone(z).localize(n), "aware-pytz", z
         except Exception:
             return n, "naive", "naive"
-    if r < 0.95:
+    if r < 0.93:
         return n.replace(tzinfo=pytz.utc), "aware", "pytz.utc"
+    if r < 0.96:
+        # offsets with seconds and a sub-second part: the precision is that of the UTC value
+        off = dt.timedelta(seconds=rng.randrange(-86399, 86400), microseconds=rng.choice([0, 1, 500, 999, 500500, rng.randrange(1000000)]))
+        return n.replace(tzinfo=dt.timezone(off)), "aware-subsecond-offset", "%s" % off
+    if r < 0.985:
+        # a local time that occurs twice (end of daylight saving time): fold says which of the two instants is meant
+        try:
+            import zoneinfo
+            zone, y, mo, d, h = rng.choice([("Europe/Berlin", 2021, 10, 31, 2), ("America/New_York", 2021, 11, 7, 1), ("Australia/Sydney", 2022, 4, 3, 2),
+                                            ("Europe/London", 1999, 10, 31, 1)])
+            x = dt.datetime(y, mo, d, h, rng.randrange(60), rng.randrange(60), n.microsecond, tzinfo=zoneinfo.ZoneInfo(zone), fold=rng.choice([0, 1]))
+            return x, "aware-zoneinfo-fold%d" % x.fold, zone
+        except Exception:
+            return n, "naive", "naive"
     return n.date(), "date", "date"
 
 
@@ -188,8 +202,8 @@ def wl_datetimes(ctx, rng, i):
                 if got != exp:
                     ctx.violation(classify_text_mismatch(got, exp), "format_datetime(STIXdatetime(%s/%s)) gave %r, expected %r" % (p, c, got, exp),
                                   {"input": repr(x), "precision": p, "constraint": c, "got": got, "expected": exp, "route": "STIXdatetime direct"})
-        # direct formatting of a plain datetime (no precision metadata -> ANY)
-        if form != "date":
+        # direct formatting of a plain datetime or date (no precision metadata -> ANY); the JSON encoders send both here
+        if True:
             ctx.ev()
             try:
                 got = u.format_datetime(x)
@@ -205,8 +219,14 @@ def wl_datetimes(ctx, rng, i):
             if form == "date" or not in_range(y_us) or not in_range(ts.datetime_us(x.replace(tzinfo=None)) + delta):
                 continue
             try:
-                y = x + dt.timedelta(microseconds=delta)
-            except OverflowError:
+                if x.tzinfo is not None and x.utcoffset() is not None:
+                    # a later *instant*: arithmetic on the UTC value (local arithmetic ignores fold and zone transitions)
+                    y = (x.astimezone(dt.timezone.utc) + dt.timedelta(microseconds=delta)).astimezone(x.tzinfo)
+                else:
+                    y = x + dt.timedelta(microseconds=delta)
+                if ts.datetime_us(y) != y_us:
+                    continue
+            except (OverflowError, ValueError):
                 continue
             for p, c in PC:
                 ctx.ev()
